@@ -1892,7 +1892,11 @@ impl StorageEngine {
                         Some(current_bytes) => {
                             let current_str = String::from_utf8_lossy(current_bytes);
                             match current_str.parse::<i64>() {
-                                Ok(current) => current + increment,
+                                // (an unchecked sum panics in a build with overflow checks and wraps without)
+                                Ok(current) => match current.checked_add(increment) {
+                                    Some(sum) => sum,
+                                    None => return Err(FerrousError::Command(CommandError::IntegerOverflow)),
+                                },
                                 Err(_) => return Err(FerrousError::Command(CommandError::NotInteger)),
                             }
                         }
